@@ -11,7 +11,7 @@ Registration histories interleaved with parsing are not decided.
 import ast
 
 from .. import regexast
-from ..astutil import body_raises, call_simple_name, exc_name, guard_chain, names_in, pm, pmall, short
+from ..astutil import body_raises, call_simple_name, conjuncts, exc_name, guard_chain, names_in, pm, pmall, short
 from ..cfg import cfg_of, node_calls
 from ..dectable import IntSet, int_cond
 from ..loader import AnalysisError, ClassInfo, FunctionInfo, body_walk, clone, norm, walk_no_nested
@@ -46,6 +46,10 @@ def run(ctx):
     ctx.do(rule_composite_registrations)
     ctx.do(rule_defining_extension_added)
     ctx.do(rule_version_scope)
+    ctx.do(rule_detector_reads_registries)
+    ctx.do(rule_reference_shape_by_name)
+    from .C02 import rule_definition_of_named_type
+    ctx.do(rule_definition_of_named_type, rule_id="C19.builtin-parity")
     ctx.do(rule_builtin_parity)
     ctx.do(rule_type_grammar)
     # version-scoped registries: every lookup / registration / name validation is made with the version in force at the call
@@ -318,6 +322,52 @@ def rule_defining_extension_added(ctx, rule_id="C19.composite-registration"):
                   "instances of a type registered with extension_name= lose every other extension (parse -> serialize drops it)",
                   file=fi.module.relpath, line=k.value.lineno, function=fi.qualname,
                   expected="a copy of kwargs['extensions'] with the defining extension added", found=bad)
+
+
+def rule_detector_reads_registries(ctx):
+    """Which spec version unversioned content belongs to is decided by detect_spec_version from the CONTENT -- with one frozen
+    exception: the type being a registered 2.1 observable.  Any further look into the registries there makes a REGISTRATION
+    change how content of that type name is read (`@v21.CustomObject('x-foo')` alone would turn 2.0-shaped x-foo content into
+    2.1): registrations are version-scoped, detection must not leak them across versions."""
+    run = ctx.run
+    prog = ctx.prog
+    R = "C19.version-scope"
+    fi = prog.func("stix2.utils::detect_spec_version")
+    reads = sorted({norm(x) for x in body_walk(fi.node) if isinstance(x, ast.Subscript) and "STIX2_OBJ_MAPS" in norm(x)
+                    and not ("STIX2_OBJ_MAPS" in norm(getattr(x, "parent", None)) and isinstance(x.parent, ast.Subscript))})
+    want = ["mappings.STIX2_OBJ_MAPS['2.1']['observables']"]
+    run.check(reads == want, R, key(fi.module.relpath, fi.qualname, "registry-reads-of-the-detector"),
+              "detect_spec_version consults the type registries at other places than the one frozen exception: registering a custom "
+              "type for one version changes which version unversioned content of that type name is taken for",
+              file=fi.module.relpath, line=fi.node.lineno, function=fi.qualname, expected=want, found=reads)
+
+
+def rule_reference_shape_by_name(ctx):
+    """`*_ref` is ONE reference, `*_refs` is a LIST of references (STIX 2.1 section 3.x naming rules the registration enforces
+    for custom types).  _validate_ref_props ties the property's SHAPE to the singular / plural name: the `ref` test is on the
+    property object itself, the `refs` test demands a ListProperty whose `contained` is a reference -- each under its own
+    name test.  Unwrapping a list before the test lets `x_ref: ListProperty(ReferenceProperty)` and `x_refs: ReferenceProperty`
+    register."""
+    run = ctx.run
+    prog = ctx.prog
+    R = "C19.validation-before-write"
+    fi = prog.func(REG + "::_validate_ref_props")
+    raising = [x for x in body_walk(fi.node) if isinstance(x, ast.If) and any(isinstance(s_, ast.Raise) for s_ in x.body)]
+    single = plural = False
+    for x in raising:
+        cj = [norm(c_) for c_ in conjuncts(x.test)] + [norm(tt) for tt, pol, _ in guard_chain(x) if pol]
+        t = " & ".join(cj)
+        if "== 'ref'" in t and "isinstance(prop_obj, ref_prop_type)" in t.replace("not ", "") and "ListProperty" not in t:
+            single = True
+        if "== 'refs'" in t and "isinstance(prop_obj, ListProperty)" in t and "prop_obj.contained" in t:
+            plural = True
+    unwraps = [a_ for a_ in body_walk(fi.node) if isinstance(a_, ast.Assign) and norm(a_.value).endswith(".contained")]
+    run.check(single and plural and not unwraps, R, key(fi.module.relpath, fi.qualname, "shape-follows-singular-plural-name"),
+              "the reference-property rule no longer ties the shape to the name (`_ref`: a reference property; `_refs`: a "
+              "ListProperty of references): a singular name with a list, or a plural name with a bare reference, can be registered",
+              file=fi.module.relpath, line=fi.node.lineno, function=fi.qualname,
+              expected="tail == 'ref' and not isinstance(p, Ref) -> raise;  tail == 'refs' and not (ListProperty and contained is Ref) -> raise",
+              found=[short(x.test, 90) for x in raising])
 
 
 def rule_validation_before_write(ctx):
